@@ -24,10 +24,11 @@ def histories(ck, tier, tmp):
 
 
 def validate(ck, trace, what):
-    rv = vlib.tlc("FaceLifeTrace.tla", "FaceLifeTrace.cfg", workers=1, env={"TRACE": trace}, timeout=3000, coverage=False, heap="16g")
-    if rv.violation:
+    from checks import flcommon
+    viol, k, accepted, rv = flcommon.validate_trace(trace, "FaceLifeTrace.cfg")
+    if viol:
+        rv.violation = viol
         lines = open(trace).read().splitlines()
-        k = rv.states - 1
         # find the history this event belongs to
         start = k - 1
         while start > 0 and '"Reset"' not in lines[start]:
@@ -77,7 +78,11 @@ def run(ck, tier, seed):
     if rel:
         i = rng.choice(rel)
         bad = os.path.join(tmp, "trace_dropped.ndjson")
-        open(bad, "w").write("\n".join(lines[:i] + lines[i + 1:]) + "\n")
+        # (only the history the event belongs to, and the one after it: the rest of a long trace adds nothing)
+        a = max(j for j in range(i + 1) if '"Reset"' in lines[j])
+        nxt = [j for j in range(i + 1, min(len(lines), i + 4000)) if '"Reset"' in lines[j]]
+        b = nxt[1] if len(nxt) > 1 else (nxt[0] if nxt else len(lines))
+        open(bad, "w").write("\n".join(lines[a:i] + lines[i + 1:b]) + "\n")
         rb = vlib.tlc("FaceLifeTrace.tla", "FaceLifeTrace.cfg", workers=1, env={"TRACE": bad}, timeout=3000, coverage=False, heap="16g")
         if not rb.violation:
             raise vlib.Broken("binding lost: a trace with a dropped release event was accepted")
